@@ -477,6 +477,10 @@ def c18(report, rng, tier, findings):
                 spec_b = {tuple(r.split(',')) for r in rb['spec']}
                 if cfgname == 'on' and (nb or nr) and inner.known('C05-F1'):
                     continue
+                if inner.attributed and ((base['id'], cfgname) in inner.attributed or (rw['id'], cfgname) in inner.attributed):
+                    # one member's deviation from the oracle was already attributed to C05-F1 (the L2 machine, which
+                    # transliterates the cache code, returns exactly its rows): not a second, separate violation
+                    continue
                 if (sb != spec_b) or True:
                     report.violations.append((f'result set changed under rewrites {rw["rewrites"]} (caching {cfgname})',
                                               {'what': 'result set not invariant', 'case': base, 'rewritten': rw,
@@ -486,7 +490,8 @@ def c18(report, rng, tier, findings):
     return ['EqlModel.Props.C18'], [
         "comparison operators behave as on ordinary Python values (World.Lawful)",
         "every non-selected variable has a non-empty domain",
-        "caching on: a difference is attributed to C05-F1 only when a result cache was not prefix-uniform during one of the runs"]
+        "caching on: a difference is attributed to C05-F1 only when a result cache was not prefix-uniform during one of the "
+        "runs or the L2 machine reproduces the deviating member's rows"]
 
 
 # ------------------------------------------------------------------------------------------- C09
